@@ -2,8 +2,8 @@ SPEC = {
     "id": "C10",
     "level": "proof",
     "props": ["props/C10.vo"],
-    "tie": ["props/C10_tieA.vo"],
-    "gen_items": ["src/bytes.rs:concat / join structure"],
+    "tie": ["props/C10_tieA.vo", "tie/EditEquiv.vo"],
+    "gen_items": ["src/bytes.rs:concat / join structure", "src/bytes.rs:truncate pop shrink_to push_slice push clear repeat with_capacity as_mut_* to_mut_slice; raw.rs:make_unique take_vec; allocated.rs:shrink_to as_mut_*"],
     "tieA_required": True,
     "case_libs": ["theories/CasesConcat.vo"],
     "drivers": [{"driver": "concat", "profiles": ["debug", "release"]}],
